@@ -74,6 +74,38 @@ func pi(id int, v int) int {
 	return v
 }
 
+// operands of DEFINED numeric types and of an alias of one (every sub-expression has the named type)
+type Celsius float64
+type F32 float32
+type ID int
+type CAlias = Celsius
+
+var cx, cy Celsius
+var hx32, hy32 F32
+var ax, ay CAlias
+var idx, idy ID
+
+func setg(p, q bool, x, y int, fx, fy float64, s, t string) {
+	cx, cy = Celsius(fx), Celsius(fy)
+	hx32, hy32 = F32(fx), F32(fy)
+	ax, ay = CAlias(fx), CAlias(fy)
+	idx, idy = ID(x), ID(y)
+}
+
+// variadic callees (spread calls f(xs...) must keep their ellipsis when a fix re-renders them)
+var xsI = []int{1, 2, 3}
+var xsA = []interface{}{1, "a"}
+
+func sumi(id int, xs ...int) int {
+	n := 0
+	for _, v := range xs {
+		n += v
+	}
+	tr(fmt.Sprintf("v%d=%d", id, n))
+	return n
+}
+func cnt(id int, xs ...interface{}) int { tr(fmt.Sprintf("c%d=%d", id, len(xs))); return len(xs) }
+
 // next counts its calls
 func next() int { counter++; tr(fmt.Sprintf("next=%d", counter)); return counter }
 
@@ -127,7 +159,8 @@ var inputs = []string{
 	`true, true, 0, -1, 2.0, math.NaN(), "", "x"`,
 	`false, false, 13, 5, -1.0, -1.0, "aXbXc", "X"`,
 	`true, false, 2, 13, math.Inf(1), 0.0, "h\u00e9llo", "l"`,
-	`false, true, 4, 1, 0.0, 0.0, "zzz", "zz"`,
+	`false, true, 4, 1, 0.0, math.Inf(-1), "zzz", "zz"`,
+	`true, true, 5, 5, math.Inf(-1), math.NaN(), "q", "q"`,
 	`false, false, 7, 7, 3.0, 2.0, "go gopher", "go"`,
 }
 
@@ -142,7 +175,11 @@ func (g *gen) nid() int { g.id++; return g.id }
 func (g *gen) pick(xs ...string) string { return xs[g.r.Intn(len(xs))] }
 
 func (g *gen) intAtom() string {
-	switch g.r.Intn(7) {
+	switch g.r.Intn(9) {
+	case 7:
+		return fmt.Sprintf("sumi(%d, xsI...)", g.nid())
+	case 8:
+		return fmt.Sprintf("cnt(%d, xsA...)", g.nid())
 	case 0:
 		return "x"
 	case 1:
@@ -189,7 +226,18 @@ func (g *gen) cmpOp() string { return g.pick("==", "!=", "<", "<=", ">", ">=") }
 // a comparison (binary expression of boolean type)
 func (g *gen) cmp(floats bool) string {
 	if floats && g.r.Chance(30) {
+		switch g.r.Intn(5) {
+		case 0:
+			return "cx " + g.cmpOp() + " " + g.pick("cy", "1.5")
+		case 1:
+			return "hx32 " + g.cmpOp() + " hy32"
+		case 2:
+			return "ay " + g.cmpOp() + " ax"
+		}
 		return g.fltAtom() + " " + g.cmpOp() + " " + g.fltAtom()
+	}
+	if g.r.Chance(10) {
+		return "idx " + g.cmpOp() + " " + g.pick("idy", "3")
 	}
 	if g.r.Chance(15) {
 		return "s " + g.cmpOp() + " " + fmt.Sprintf("ts(%d, t)", g.nid())
@@ -302,7 +350,7 @@ func shapes() []shape {
 			case 0:
 				c = "n + x " + g.pick(">", ">=", "==") + " " + g.intAtom()
 			case 1:
-				c = g.pick("fx < fy", "fx >= fy", "tf(1, fx) > float64(n)", "fy <= fx")
+				c = g.pick("fx < fy", "fx >= fy", "tf(1, fx) > float64(n)", "fy <= fx", "cx >= cy", "hx32 < hy32", "ay > ax", "cx < 2")
 			case 2:
 				c = "n > 1 " + g.pick("||", "&&") + " " + g.boolAtom(true)
 			default:
@@ -460,8 +508,14 @@ var directed = map[string][]string{
 		"return !(x/(ti(1, 4)/2) == 1 && q)",                    // division
 		"return !(s+(t+\"a\") == \"zzzzza\" && x*(y*2) == 8)",       // associative operators: fine
 		"return !(fx < fy || p)",                                 // floats: must not be offered
+		"return !(cx < cy || p)",                                 // defined float type: must not be offered either
+		"return !(q && (hx32 >= hy32 || ay > ax))",
+		"return !(p && sumi(1, xsI...) == 6)",                    // variadic spread, ...int
+		"return !(q || cnt(1, xsA...) == 2 && p)",                // variadic spread, ...interface{}: still type-checks without the ellipsis
 	},
 	"S1002": {
+		"return (cnt(1, xsA...) == 2) == false",
+		"return cx < cy == false",
 		"return x < ti(1, y) == false",
 		"return tb(1, p) != true",
 		"if false == !tb(1, q) {\n\t\treturn 1\n\t}\n\treturn 2",
@@ -469,10 +523,13 @@ var directed = map[string][]string{
 		"return p == q == false",
 	},
 	"QF1006": {
+		"n := 0\n\tfor {\n\t\tif cx >= cy {\n\t\t\tbreak\n\t\t}\n\t\tn++\n\t\tif n > 2 {\n\t\t\treturn -n\n\t\t}\n\t}\n\treturn n", // defined float type
+		"n := 0\n\tfor {\n\t\tif hx32 < hy32 || ax <= ay {\n\t\t\tbreak\n\t\t}\n\t\tn++\n\t\tif n > 2 {\n\t\t\treturn -n\n\t\t}\n\t}\n\treturn n",
 		"n := 0\n\tfor {\n\t\tif fx < fy {\n\t\t\tbreak\n\t\t}\n\t\tn++\n\t\tif n > 2 {\n\t\t\treturn -n\n\t\t}\n\t}\n\treturn n",
 		"n := 0\n\tfor {\n\t\tif n >= x || pi(1, y) == 2 {\n\t\t\tbreak\n\t\t}\n\t\tn++\n\t\tif n > 2 {\n\t\t\treturn -n\n\t\t}\n\t}\n\treturn n",
 	},
 	"QF1007": {
+		"v := true\n\tif cnt(1, xsA...) == 2 && p {\n\t\tv = false\n\t}\n\treturn v",
 		"v := true\n\tif tb(1, p) && fx < fy {\n\t\tv = false\n\t}\n\treturn v",
 	},
 	"QF1002": {
@@ -579,7 +636,7 @@ func runBehave(work string, rnd *hx.Rand, n int, only string, keep bool) {
 	mainSrc.WriteString("package main\n\nimport \"math\"\n\nvar _ = math.NaN\n\nfunc main() {\n")
 	for _, in := range insts {
 		for k, args := range inputs {
-			fmt.Fprintf(&mainSrc, "\trun(\"%s/%d\", func() any { return %s(%s) })\n", in.fn, k, in.fn, args)
+			fmt.Fprintf(&mainSrc, "\trun(\"%s/%d\", func() any { setg(%s); return %s(%s) })\n", in.fn, k, args, in.fn, args)
 		}
 	}
 	mainSrc.WriteString("}\n")
@@ -589,6 +646,7 @@ func runBehave(work string, rnd *hx.Rand, n int, only string, keep bool) {
 	hx.WriteFile(instPath, src.String())
 	hx.WriteFile(filepath.Join(dir, "main.go"), mainSrc.String())
 	stat("behave_instances", len(insts))
+	roundTripFile(instPath, src.Bytes())
 
 	base, blog, err := buildAndRun(dir)
 	if err != nil {
